@@ -5,11 +5,11 @@ package main
 
 import (
 	"context"
-	"math"
-	"strconv"
 	"errors"
 	"fmt"
+	"math"
 	"sort"
+	"strconv"
 
 	"github.com/bradenaw/juniper/iterator"
 	"github.com/bradenaw/juniper/stream"
@@ -118,6 +118,9 @@ func (s *scriptStream) Next(ctx context.Context) (int, error) {
 	case "transient":
 		s.evs = s.evs[1:]
 		return 0, s.r.err(num(ev[1]))
+	case "panic": // this Next panics once; the event is consumed
+		s.evs = s.evs[1:]
+		panic("verif: source panics")
 	default: // fatal: stays
 		return 0, s.r.err(num(ev[1]))
 	}
@@ -202,18 +205,25 @@ func relOf(a any) func(int, int) bool {
 	return func(a, b int) bool { return floorDiv(a, d) == floorDiv(b, d) }
 }
 
-// failing: [k|null, e]
-func failer(a any, r *rec) func() error {
+// failing: [k|null, e, panics]: the k-th invocation (0-based) of this callback instance fails: it returns the scripted
+// error e, or panics when panics is true. Iterator callbacks cannot return errors: they honour panicking records only.
+func failer(a any, r *rec, errorsToo bool) func() error {
 	f := a.([]any)
 	if f[0] == nil {
 		return func() error { return nil }
 	}
 	k, e := num(f[0]), num(f[1])
+	pan := len(f) > 2 && f[2] == true
 	n := 0
 	return func() error {
 		n++
 		if n-1 == k {
-			return r.err(e)
+			if pan {
+				panic("verif: callback panics")
+			}
+			if errorsToo {
+				return r.err(e)
+			}
 		}
 		return nil
 	}
@@ -246,7 +256,8 @@ func buildIterZ(d map[string]any, r *rec, off int) iterator.Iterator[int] {
 		}
 		return iterator.CompactFunc(sub(), relOf(d["r"]))
 	case "filter":
-		return iterator.Filter(sub(), predOf(d["f"]))
+		p, fl := predOf(d["f"]), failer(d["fl"], r, false)
+		return iterator.Filter(sub(), func(x int) bool { fl(); return p(x) })
 	case "first":
 		return iterator.First(sub(), num(d["n"]))
 	case "flatten":
@@ -254,10 +265,11 @@ func buildIterZ(d map[string]any, r *rec, off int) iterator.Iterator[int] {
 	case "join":
 		return iterator.Join(subs()...)
 	case "map":
-		f := ints(d["f"])
-		return iterator.Map(sub(), func(x int) int { return f[0]*x + f[1] })
+		f, fl := ints(d["f"]), failer(d["fl"], r, false)
+		return iterator.Map(sub(), func(x int) int { fl(); return f[0]*x + f[1] })
 	case "while":
-		return iterator.While(sub(), predOf(d["f"]))
+		p, fl := predOf(d["f"]), failer(d["fl"], r, false)
+		return iterator.While(sub(), func(x int) bool { fl(); return p(x) })
 	}
 	panic("harness: bad iterator pipeline node " + d["t"].(string))
 }
@@ -312,7 +324,7 @@ func buildStreamZ(d map[string]any, r *rec) stream.Stream[int] {
 		}
 		return stream.CompactFunc(sub(), relOf(d["r"]))
 	case "filter":
-		p, fl := predOf(d["f"]), failer(d["fl"], r)
+		p, fl := predOf(d["f"]), failer(d["fl"], r, true)
 		return stream.Filter(sub(), func(_ context.Context, x int) (bool, error) {
 			if e := fl(); e != nil {
 				return false, e
@@ -326,7 +338,7 @@ func buildStreamZ(d map[string]any, r *rec) stream.Stream[int] {
 	case "join":
 		return stream.Join(subs()...)
 	case "map":
-		f, fl := ints(d["f"]), failer(d["fl"], r)
+		f, fl := ints(d["f"]), failer(d["fl"], r, true)
 		return stream.Map(sub(), func(_ context.Context, x int) (int, error) {
 			if e := fl(); e != nil {
 				return 0, e
@@ -334,7 +346,7 @@ func buildStreamZ(d map[string]any, r *rec) stream.Stream[int] {
 			return f[0]*x + f[1], nil
 		})
 	case "while":
-		p, fl := predOf(d["f"]), failer(d["fl"], r)
+		p, fl := predOf(d["f"]), failer(d["fl"], r, true)
 		return stream.While(sub(), func(_ context.Context, x int) (bool, error) {
 			if e := fl(); e != nil {
 				return false, e
@@ -390,6 +402,14 @@ func buildStreamL(d map[string]any, r *rec) streamL {
 		return &runsTaken{inner: stream.Runs(inner, relOf(d["r"])), take: d["take"]}
 	}
 	panic("harness: bad stream list pipeline node")
+}
+
+// sumFl: the failing record of the reduction function of ["sum", fl] (absent: never fails)
+func sumFl(rd []any) any {
+	if len(rd) > 1 {
+		return rd[1]
+	}
+	return []any{nil, 0, false}
 }
 
 func isListPipe(d map[string]any) bool {
@@ -464,7 +484,8 @@ func runPipes(c *Case) *Obs {
 							res = []any{"end"}
 						}
 					case "sum":
-						res = []any{"val", []int{iterator.Reduce(itZ, 0, func(a, x int) int { return a + x })}}
+						fl := failer(sumFl(rd), r, false)
+						res = []any{"val", []int{iterator.Reduce(itZ, 0, func(a, x int) int { fl(); return a + x })}}
 					case "equal":
 						its := []iterator.Iterator[int]{itZ}
 						for _, q := range rd[1].([]any) {
@@ -518,8 +539,9 @@ func runPipes(c *Case) *Obs {
 					}
 				})
 				if pp {
+					// the caller recovered: the history goes on with the same pipeline
 					record([]any{"panic"})
-					return
+					continue
 				}
 				record(res)
 			}
@@ -567,7 +589,13 @@ func runPipes(c *Case) *Obs {
 						res = []any{"val", []int{x}}
 					}
 				case "sum":
-					x, err := stream.Reduce(ctx, sZ, 0, func(a, x int) (int, error) { return a + x, nil })
+					fl := failer(sumFl(rd), r, true)
+					x, err := stream.Reduce(ctx, sZ, 0, func(a, x int) (int, error) {
+						if e := fl(); e != nil {
+							return 0, e
+						}
+						return a + x, nil
+					})
 					if err != nil {
 						res = errCode(err)
 					} else {
@@ -616,7 +644,7 @@ func runPipes(c *Case) *Obs {
 			})
 			if pp {
 				record([]any{"panic"})
-				return
+				continue
 			}
 			record(res)
 		}
